@@ -8,34 +8,11 @@ namespace Ndn.C19
 open Spec (Routes rget replay)
 open Ndn.C18 (Rib Entry)
 
-/-- the tables after a router-level event, and whether the code starts `fibUpdate`:
-    advertSyncOnInterest (`fibDirty`), ribUpdate / checkDeadNeighbors (`dirty`), processPrefixData (`Apply`) -/
-def Tables.stepDirty (t : Tables) : RouterEvent → Tables × Bool
-  | .ping w face active =>
-    ({ t with nbrs := (recvPing t.nbrs w face active).1 }, (recvPing t.nbrs w face active).2)
-  | .adv w entries =>
-    match pget t.nbrs w with
-    | some _ => ({ t with rib := (C18.ribUpdate t.self t.rib w entries).1 }, (C18.ribUpdate t.self t.rib w entries).2)
-    | none => (t, false)
-  | .dead w =>
-    match pget t.nbrs w with
-    | some _ => ({ t with rib := (C18.ribDead t.rib w).1, nbrs := perase t.nbrs w }, (C18.ribDead t.rib w).2)
-    | none => (t, false)
-  | .papply x reset adds rems =>
-    ({ t with pfx := (pfxApply t.pfx x reset adds rems).1 }, (pfxApply t.pfx x reset adds rems).2)
-
-theorem stepDirty_fst (t : Tables) (ev : RouterEvent) : (t.stepDirty ev).1 = t.step ev := by
-  cases ev with
-  | ping w face active => rfl
-  | adv w entries => simp only [Tables.stepDirty, Tables.step]; cases pget t.nbrs w <;> rfl
-  | dead w => simp only [Tables.stepDirty, Tables.step]; cases pget t.nbrs w <;> rfl
-  | papply x reset adds rems => rfl
-
 theorem step_self (t : Tables) (ev : RouterEvent) : (t.step ev).self = t.self := by
   cases ev with
   | ping w face active => rfl
-  | adv w entries => simp only [Tables.step]; cases pget t.nbrs w <;> rfl
-  | dead w => simp only [Tables.step]; cases pget t.nbrs w <;> rfl
+  | adv w entries => simp only [Tables.step, Tables.stepDirty]; cases pget t.nbrs w <;> rfl
+  | dead w => simp only [Tables.step, Tables.stepDirty]; cases pget t.nbrs w <;> rfl
   | papply x reset adds rems => rfl
 
 theorem recvPing_clean {nbrs : List (Nat × Nbr)} {w face : Nat} {active : Bool}
@@ -90,7 +67,7 @@ theorem clean_same_prescription (prefixOf : Nat → Nat) {t : Tables} (inv : Nbr
     refine prescription_congr prefixOf (t := t) (t' := t.step (.ping w face active)) rfl rfl (fun _ => rfl) ?_
     intro o ho hne
     obtain ⟨u1, u2⟩ := used t ok o ho hne
-    simp only [faceOfS, Tables.step]
+    simp only [faceOfS, Tables.step, Tables.stepDirty]
     exact ⟨by rw [recvPing_clean hc u1], fun h2 => by rw [recvPing_clean hc (u2 h2)]⟩
   | adv w entries =>
     simp only [Tables.stepDirty, Tables.step] at hc ⊢
@@ -102,16 +79,13 @@ theorem clean_same_prescription (prefixOf : Nat → Nat) {t : Tables} (inv : Nbr
         rfl (ribUpdate_clean _ _ _ _ hc) (fun _ => rfl) (fun _ _ _ => ⟨rfl, fun _ => rfl⟩)
   | dead w =>
     simp only [Tables.stepDirty] at hc
-    have hstep : t.step (.dead w) = match pget t.nbrs w with
-        | some _ => { t with rib := (C18.ribDead t.rib w).1, nbrs := perase t.nbrs w }
-        | none => t := rfl
     cases hw : pget t.nbrs w with
-    | none => rw [hstep, hw]
+    | none => simp only [Tables.step, Tables.stepDirty, hw]
     | some nb =>
       simp only [hw] at hc
       have hb := ribDead_clean t.rib w hc
       have hstep' : t.step (.dead w) = { t with rib := (C18.ribDead t.rib w).1, nbrs := perase t.nbrs w } := by
-        rw [hstep, hw]
+        simp only [Tables.step, Tables.stepDirty, hw]
       rw [hstep'] at ok' ⊢
       refine prescription_congr prefixOf (t := t)
         (t' := { t with rib := (C18.ribDead t.rib w).1, nbrs := perase t.nbrs w }) rfl hb (fun _ => rfl) ?_
@@ -132,24 +106,9 @@ theorem clean_same_prescription (prefixOf : Nat → Nat) {t : Tables} (inv : Nbr
     simp only [Tables.stepDirty] at hc
     refine prescription_congr prefixOf (t := t) (t' := t.step (.papply x reset adds rems)) rfl rfl ?_ ?_
     · intro d
-      simp only [announcedS, Tables.step]
+      simp only [announcedS, Tables.step, Tables.stepDirty]
       exact pfxApply_clean hc d
     · intro _ _ _; exact ⟨rfl, fun _ => rfl⟩
-
-/-- tables, installer state and the forwarder's route table (replay of every emitted command) -/
-structure RState where
-  t : Tables
-  fib : Fib
-  routes : Routes
-
-def RState.start (self : Nat) : RState := { t := Tables.start self, fib := Fib.empty, routes := [] }
-
-/-- one router-level event: the tables change and `fibUpdate` runs iff the code's dirty result is true -/
-def RState.step (prefixOf : Nat → Nat) (s : RState) (ev : RouterEvent) : RState :=
-  if (s.t.stepDirty ev).2 then
-    let r := fibUpdate prefixOf (s.t.step ev) s.fib
-    { t := s.t.step ev, fib := r.1, routes := replay s.routes r.2 }
-  else { s with t := s.t.step ev }
 
 structure RInv (prefixOf : Nat → Nat) (s : RState) : Prop where
   nbr : NbrInv s.t
@@ -188,7 +147,7 @@ theorem rinv_start (prefixOf : Nat → Nat) (self : Nat) : RInv prefixOf (RState
 theorem rinv_step (prefixOf : Nat → Nat) {s : RState} (inv : RInv prefixOf s) (ev : RouterEvent) :
     RInv prefixOf (s.step prefixOf ev) := by
   have nbr' := nbrInv_step inv.nbr ev
-  unfold RState.step
+  unfold RState.step RState.stepCmds
   by_cases hd : (s.t.stepDirty ev).2 = true
   · simp only [hd, if_true]
     obtain ⟨m, h⟩ := fibUpdate_spec prefixOf (s.t.step ev) inv.mir (desired_nodup prefixOf (s.t.step ev))
